@@ -86,6 +86,7 @@ CONV = {
     6: lambda v, row: (v, len(row)),
     7: lambda v: _CODES[v],          # a lookup-table converter: KeyError on 2 and 'x'
     8: lambda v, row: _raise(8) if v in (2, 'x') else ('ok', v, len(row)),     # pass_row=True, fails on 2 and 'x'
+    9: lambda v: _raise(9) if isinstance(v, tuple) else ('ok', v),             # fails on cells that are tuples
 }
 _CODES = {0: 'zero', 1: 'one', 'b': 'bee', None: 'none'}
 
@@ -100,7 +101,20 @@ def _rowmapper1(row):
     return [row[0], len(row)]
 
 
-ROWMAPPER = {0: _rowmapper0, 1: _rowmapper1}
+def _rowmapper2(row):
+    # a lazily evaluated row: the failure happens while petl builds the output tuple
+    n = len(row)
+    return (_raise(2) if (i == 0 and row[0] in (2, 'x')) else (row[0] if i == 0 else n) for i in range(2))
+
+
+def _rowmapper3(row):
+    # no row at all for the failing records: tuple(None) raises TypeError inside petl
+    if row[0] in (2, 'x'):
+        return None
+    return [row[0], len(row)]
+
+
+ROWMAPPER = {0: _rowmapper0, 1: _rowmapper1, 2: _rowmapper2, 3: _rowmapper3}
 
 
 def _rowgen0(row):
